@@ -52,7 +52,7 @@ FAULTS = ["bare-rods-wire-only-correlation", "bare-rods-zero-pitch-wire-only-cor
           "duct-ge-pitch", "unequal-outer-ducts", "axial-regions-overlap", "axial-region-inverted", "missing-bc", "negative-flowrate",
           "unknown-material", "unknown-correlation", "negative-power", "power-gap-between-cells", "power-wrong-pin-count",
           "flow-gap-no-bypass", "zero-core-length", "odd-duct-values", "zero-step-request",
-          "axial-region-no-coolant", "axial-region-unknown-model"]
+          "axial-region-no-coolant", "axial-region-unknown-model", "pin-pitch-equals-diameter"]
 
 
 GEOMETRY_FAULTS = ["duct-zero-wall", "wire-too-thick", "clad-too-thick", "zero-pin-pitch", "negative-pin-diameter", "zero-duct-ftf", "odd-duct-values"]
@@ -144,6 +144,11 @@ def inject(rng, case, fault, lowfid=False, near=False, excess=0.01):
         zc = round(rng.uniform(0.3, 0.7) * L, 4)
         t['AxialRegion'] = [dict(name='lower', z_lo=0.0, z_hi=zc, vf_coolant=0.3, model='simple'),
                             dict(name='upper', z_lo=zc, z_hi=L, vf_coolant=0.3, model='simple')]
+    elif fault == "pin-pitch-equals-diameter":
+        # touching pins: no gap between them (the pin-to-pin conduction length is zero)
+        t['pin_pitch'] = t['pin_diameter']
+        t['wire_diameter'] = 0.0
+        t['wire_pitch'] = 0.0
     elif fault == "axial-region-no-coolant":
         # a region without any coolant volume cannot pass the flow (every temperature becomes NaN)
         if t.get('use_low_fidelity_model'):
@@ -447,7 +452,7 @@ def search_fault(ctx, rng, fault, tries=40):
     return False
 
 
-MODELLED = {"bypass-fraction-one", "duct-zero-wall", "pins-do-not-fit", "wire-too-thick", "clad-too-thick", "zero-pin-pitch", "negative-pin-diameter", "zero-duct-ftf",
+MODELLED = {"pin-pitch-equals-diameter", "bypass-fraction-one", "duct-zero-wall", "pins-do-not-fit", "wire-too-thick", "clad-too-thick", "zero-pin-pitch", "negative-pin-diameter", "zero-duct-ftf",
             "duct-ge-pitch", "unequal-outer-ducts", "missing-bc", "negative-flowrate", "flow-gap-no-bypass", "zero-core-length",
             "odd-duct-values"}
 
